@@ -618,6 +618,25 @@ def flat_pareto(alg, cfg, n):
     return out
 
 
+def poison_discarded(alg, cfg, post):
+    """FRAME check: the regions of designs that have left S and are not in P are never read again (specification: every relation the
+    round consults is between members of S, U, P).  After every step those regions are overwritten with a far-away box that would
+    dominate and cover everything; a decision that still consults one (a stale cache, a witness drawn from the wrong set) then
+    deviates from the specification on the very next step."""
+    fam = ALG_FAM[cfg["alg"]]
+    keep = set(post["S"]) | (set(post["P"]) if fam != "auer" else set())
+    big = 1000.0 if (post["round"] % 2 == 0) else -1000.0
+    for i, reg in enumerate(alg.design_space.confidence_regions):
+        if (i + 1) in keep:
+            continue
+        m = alg.m
+        if hasattr(reg, "lower"):
+            reg.lower = np.full(m, big)
+            reg.upper = np.full(m, big + 1.0)
+        else:
+            reg.center = np.full(m, big)
+
+
 def region_contains(reg, mu):
     mu = np.asarray(mu, dtype=float)
     if hasattr(reg, "lower"):
@@ -789,6 +808,8 @@ def record(cfg):
                 step["data"] = {"gained": step["data"]["returned"], "returned": step["data"]["returned"], "synced": True}
         if not exc and ALG_FAM[cfg["alg"]] == "flat":
             step["flat"] = flat_pareto(alg, cfg, n)
+        if smodel is not None and not exc and cfg["script"].get("poison"):
+            poison_discarded(alg, cfg, post)
         if smodel is not None and not exc and not smodel.wander:
             active = set(pre["S"]) | (set(pre["U"]) if ALG_FAM[cfg["alg"]] == "paveba" else set(pre["P"]) if ALG_FAM[cfg["alg"]] == "vogp" else set())
             if not (pre["S"] == [] ):
